@@ -142,13 +142,19 @@ def compare_json(model, doc):
     for name, m in model['merchants'].items():
         want[name] = (m['category'], m['subcategory'], tuple(sorted(m['tags'])), len(m['txns']),
                       round(sum(t['amount'] for t in m['txns']), 2), tuple(sorted(set(t['id'] for t in m['txns']))))
+    def close(a, b):
+        # totals are printed rounded to cents: a sum that lands on half a cent may round either way
+        return a[:4] == b[:4] and abs(a[4] - b[4]) <= 0.0101 and a[5] == b[5]
+
     if got != want:
         names = sorted(set(got) ^ set(want))
         if names:
             out.append(('json-merchants', 'JSON merchants differ from the model: %s' % names[:4]))
         else:
-            k = next(k for k in want if got[k] != want[k])
-            out.append(('json-merchant', 'JSON merchant %s: %s, model: %s' % (k, got[k], want[k])))
+            bad = [k for k in want if not close(got[k], want[k])]
+            if bad:
+                k = bad[0]
+                out.append(('json-merchant', 'JSON merchant %s: %s, model: %s' % (k, got[k], want[k])))
     return out
 
 
@@ -207,9 +213,10 @@ def execute(case, scratch):
         violations.append({'invariant': inv, 'signature': {'what': what.split(':')[0], 'fault': fault_kind, 'rules': b['rules_kind']},
                            'witness': witness, 'schedule': {'property': ID, 'case': dict(case, faults=[fault] if fault else [])}})
 
-    def run_up(fmt, reads):
-        argv = ['up', cfg] + (['--format', 'json', '-v'] if fmt == 'json' else [])
-        r = proc.run_cli(root, argv, {'net': 'down', 'reads': reads}, ctl_parent=ctlp)
+    def run_up(fmt, reads, cwd='.'):
+        carg = cfg if cwd == '.' else os.path.relpath(cfg, cwd)
+        argv = ['up', carg] + (['--format', 'json', '-v'] if fmt == 'json' else [])
+        r = proc.run_cli(root, argv, {'net': 'down', 'reads': reads}, cwd=cwd, ctl_parent=ctlp)
         count['sim_processes'] += 1
         return r
 
@@ -256,12 +263,25 @@ def execute(case, scratch):
                 failing = [s['name'] for s in prim if b['base'] + s['file'] == f['file']]
                 reads = apply_fault(root, f, snap)
             count['fired.' + f['kind']] = count.get('fired.' + f['kind'], 0) + 1
+            cwd = '.'
+            if f['kind'] == 'absent' and f['source'] != '*':
+                # the command is started from some other directory, where a file of the same relative name happens to lie:
+                # a budget's sources are the files of the budget
+                cwd = 'elsewhere' if util.digest(f)[1] in '01234567' else '.'
+                src_rel = f['file'][len(b['base']):]
+                decoy = os.path.join(root, cwd, src_rel)
+                if not os.path.exists(decoy) and os.path.normpath(os.path.join(cwd, src_rel)) != os.path.normpath(f['file']):
+                    os.makedirs(os.path.dirname(decoy), exist_ok=True)
+                    with open(decoy, 'wb') as fh:
+                        fh.write(snap[f['file']].replace(b' r', b' DECOY r'))
+                elif cwd == 'elsewhere':
+                    os.makedirs(os.path.join(root, cwd), exist_ok=True)
             model = model_report(case, failing, root, ctlp)
             vector(f['kind'], model)
             fmt = 'json' if util.digest(f)[0] in '01234567' else 'html'
-            r = run_up(fmt, reads)
+            r = run_up(fmt, reads, cwd)
             text = r.out + '\n' + r.err
-            log.append(['fault', f, fmt, r.exit, util.sha(util.norm_text(text, root))])
+            log.append(['fault', f, fmt, cwd, r.exit, util.sha(util.norm_text(text, root))])
             if not model['txns']:
                 if r.exit == 0:
                     add('REP', 'all-sources-failed-exit-0', f['kind'], 'every source fails (%s) yet `tally up` exits 0' % failing, f)
